@@ -258,7 +258,7 @@ def check_case(case):
                               case, sub)
             res.hits["combined slice"] += 1
     # ---- assignment histories on ONE object: labels must always follow the object's current metadata
-    if case.get("full", True) or n in (2, 3, 4):
+    if tuple(case["band"]) in (BANDS[1], BANDS[3]) and (case.get("full", True) or n in (2, 3, 4)):
         import itertools as _it
         ops = [("read", None), ("align", "bottom"), ("align", "top"), ("align", "center"), ("center", 1.0), ("bw", 2.0), ("slice", None)]
         if baseband:
